@@ -345,7 +345,7 @@ func (h H) monotoneStatus(rule string) {
 		n++
 		h.gate(rule+" stale-snapshot-ignored", "(*Raft).onInstallSnapRequest store commitIndex", s.Instr, want)
 		v := h.P.Info(fn).Sym(storeVal(s.Instr)).String()
-		h.C.Check(rule+" commit-index-from-snapshot", "(*Raft).onInstallSnapRequest store commitIndex", v == "Raft.storage.snaps.index", h.pos(s.Instr), "after discarding the log the commit index must be the snapshot index; found "+v)
+		h.C.Check(rule+" commit-index-from-snapshot", "(*Raft).onInstallSnapRequest store commitIndex", isSnapIndexExpr(v, "Raft.storage"), h.pos(s.Instr), "after discarding the log the commit index must be the snapshot index; found "+v)
 	}
 	h.C.Floor(rule+" (state changes in install handler)", n, 4)
 	// Serve: initial commit index from the restored snapshot, before stateLoop
@@ -358,14 +358,14 @@ func (h H) monotoneStatus(rule string) {
 				ok = true
 			}
 		}
-		h.C.Check(rule+" initial-commit-index", "(*Raft).Serve store commitIndex", ok && h.P.Info(sv).Sym(storeVal(s.Instr)).String() == "Raft.storage.snaps.index", h.pos(s.Instr), "Serve may only initialise the commit index from the snapshot before the state loop starts")
+		h.C.Check(rule+" initial-commit-index", "(*Raft).Serve store commitIndex", ok && isSnapIndexExpr(h.P.Info(sv).Sym(storeVal(s.Instr)).String(), "Raft.storage"), h.pos(s.Instr), "Serve may only initialise the commit index from the snapshot before the state loop starts")
 	}
 	// info() is assembled on the raft goroutine in one activation
 	h.onlyCallers(rule+" who-may-call", "raft:(*Raft).info", "(*Raft).executeTask")
 	h.onlyCallers(rule+" who-may-call", "raft:(*Raft).executeTask", "(*Raft).stateLoop")
 	inf := h.fn("raft:(*Raft).info")
 	ifi := h.P.Info(inf)
-	wantF := map[string]string{"Term": "Raft.storage.term", "Committed": "Raft.commitIndex", "LastLogIndex": "Raft.storage.lastLogIndex", "SnapshotIndex": "Raft.storage.snaps.index", "LastApplied": "(*Raft).lastApplied(Raft)"}
+	wantF := map[string]string{"Term": "Raft.storage.term", "Committed": "Raft.commitIndex", "LastLogIndex": "Raft.storage.lastLogIndex", "SnapshotIndex": "(*snapshots).latestIndex(Raft.storage.snaps)", "LastApplied": "(*Raft).lastApplied(Raft)"}
 	seen := 0
 	core.Instrs(inf, func(in ssa.Instruction) {
 		st, ok := in.(*ssa.Store)
@@ -376,7 +376,12 @@ func (h H) monotoneStatus(rule string) {
 		for f, w := range wantF {
 			if strings.HasSuffix(a, "Info#1."+f) || strings.HasSuffix(a, "."+f) && strings.Contains(a, "Info") {
 				seen++
-				h.C.Check(rule+" info-fields", "(*Raft).info Info."+f, ifi.Sym(st.Val).String() == w, h.pos(st), "status field "+f+" must report "+w+"; found "+ifi.Sym(st.Val).String())
+				got := ifi.Sym(st.Val).String()
+				okv := got == w
+				if f == "SnapshotIndex" {
+					okv = isSnapIndexExpr(got, "Raft.storage")
+				}
+				h.C.Check(rule+" info-fields", "(*Raft).info Info."+f, okv, h.pos(st), "status field "+f+" must report "+w+"; found "+ifi.Sym(st.Val).String())
 			}
 		}
 	})
